@@ -27,7 +27,7 @@ class ConstraintYamlWriter(YamlWriterMixin, ConstraintDReprBase):
         if _class is GaussianSimpleParameterConstraint:
             _yaml_doc["index"] = constraint.index
             _yaml_doc["value"] = constraint.value
-            _yaml_doc["uncertainty"] = constraint.uncertainty
+            _yaml_doc["uncertainty"] = constraint.uncertainty_rel if constraint.relative else constraint.uncertainty
             _yaml_doc["relative"] = constraint.relative
         elif _class is GaussianMatrixParameterConstraint:
             _yaml_doc["indices"] = constraint.indices.tolist()
